@@ -163,6 +163,15 @@ pub fn text(c: &Case) -> String {
         "refvalue" => format!("A ::= INTEGER {k}\nv A ::= {}", c.x.unwrap()),
         "default" => format!("S ::= SEQUENCE {{ f INTEGER {k} DEFAULT {} }}", c.x.unwrap()),
         "refdefault" => format!("A ::= INTEGER {k}\nS ::= SEQUENCE {{ f A DEFAULT {} }}", c.x.unwrap()),
+        // the bounds are the actual parameters of a template whose dummy references are spelled like values of the module
+        "template-instance" => {
+            let (l, h) = (c.ranges[0].0.unwrap(), c.ranges[0].1.unwrap());
+            format!("lo INTEGER ::= 1\nhi INTEGER ::= 10\nRng {{ INTEGER:lo, INTEGER:hi }} ::= INTEGER (lo..hi)\nA ::= Rng {{ {l}, {h} }}")
+        }
+        "template-instance-component" => {
+            let (l, h) = (c.ranges[0].0.unwrap(), c.ranges[0].1.unwrap());
+            format!("lo INTEGER ::= 1\nhi INTEGER ::= 10\nRng {{ INTEGER:lo, INTEGER:hi }} ::= SEQUENCE {{ f INTEGER (lo..hi) }}\nS ::= Rng {{ {l}, {h} }}")
+        }
         _ => unreachable!(),
     };
     let body = if c.form.starts_with("union-ref") {
@@ -273,6 +282,12 @@ impl Prop for C06 {
                         }
                     }
                 }
+            }
+        }
+        // template instances: bounds given as actual parameters (finite pairs of the 9-point subset and a few boundary pairs)
+        for (l, h) in [(-5i128, 300i128), (0, 70000), (-129, 127), (0, 255), (0, 256), (-128, 127), (0, 1i128 << 32), (-(1i128 << 31), (1i128 << 31) - 1), (5, 5)] {
+            for ctx in ["template-instance", "template-instance-component"] {
+                out.push(Case { ranges: vec![(Some(l), Some(h))], form: "single".into(), ext: false, ctx: ctx.into(), x: None });
             }
         }
         // finite ranges written with excluded endpoints
@@ -397,11 +412,11 @@ impl Prop for C06 {
         };
         let missing = |what: &str| Disc::new(format!("width|ctx={}|missing-item|{what}", c.ctx), format!("{what} not found\n{src}\n{gen}"));
         match c.ctx.as_str() {
-            "assign" => match tuple_ty("A") {
+            "assign" | "template-instance" => match tuple_ty("A") {
                 Some(t) => check_type(&t, "struct A", &mut discs),
                 None => discs.push(missing("struct A")),
             },
-            "component" | "optional" | "choice" => match field_ty("S", "f") {
+            "component" | "optional" | "choice" | "template-instance-component" => match field_ty("S", "f") {
                 Some(t) => check_type(&t, "S.f", &mut discs),
                 None => discs.push(missing("S.f")),
             },
